@@ -92,7 +92,8 @@ def value_for(row, rnd, size):
         s = body + ean.calc_check_digit(body)
         return s, {'t': 'str', 's': lib.cps(s)}
     if row['ai'] == '8007':
-        s = rnd.choice(['NL91ABNA0417164300', 'GB82WEST12345698765432', 'BE71096123456769'])
+        # an IBAN as the payer would type it: the value is data, it comes back as it went in (lower case included)
+        s = rnd.choice(['NL91ABNA0417164300', 'GB82WEST12345698765432', 'BE71096123456769', 'nl91abna0417164300', 'Gb82west12345698765432'])
         return s, {'t': 'str', 's': lib.cps(s)}
     n = {'min': total_min, 'mid': max(total_min, (total_min + total_max) // 2), 'max': total_max}[size]
     out = ''
